@@ -2,18 +2,23 @@
 (* constants of the exhaustive / generation configurations of ClientStream *)
 EXTENDS ClientStream
 
-AllCfgs == [tls : TlsModes, sasl2 : BOOLEAN, sasl : BOOLEAN, legacy : BOOLEAN]
+PlainCfgs == [tls : TlsModes, sasl2 : BOOLEAN, sasl : BOOLEAN, legacy : BOOLEAN, reg : {"none"}]
+\* in-band registration on connect (QXmppRegistrationManager): the authentication settings play no
+\* role (the features never reach the stream's authentication), so one setting is enough
+RegCfgs == [tls : TlsModes, sasl2 : {FALSE}, sasl : {TRUE}, legacy : {FALSE}, reg : {"form", "noform"}]
+AllCfgs == PlainCfgs \cup RegCfgs
 
-Feat(t, m, s2, l, b, sm) == [tls |-> t, mechs |-> m, s2 |-> s2, b2 |-> "none", r2 |-> FALSE, legacy |-> l, bind |-> b, sm |-> sm]
+Feat(t, m, s2, l, b, sm) == [tls |-> t, mechs |-> m, s2 |-> s2, b2 |-> "none", r2 |-> FALSE, legacy |-> l, bind |-> b, sm |-> sm, register |-> FALSE]
+FeatReg(t, m) == [Feat(t, m, "none", FALSE, FALSE, FALSE) EXCEPT !.register = TRUE]
 \* SASL 2 with inline features: bind2 ("plain": no inline feature, "sm": stream management inline) and resumption
-Feat2(s2, b2, r2) == [tls |-> "absent", mechs |-> "none", s2 |-> s2, b2 |-> b2, r2 |-> r2, legacy |-> FALSE, bind |-> FALSE, sm |-> FALSE]
+Feat2(s2, b2, r2) == [tls |-> "absent", mechs |-> "none", s2 |-> s2, b2 |-> b2, r2 |-> r2, legacy |-> FALSE, bind |-> FALSE, sm |-> FALSE, register |-> FALSE]
 
-\* every combination: 3*4*3*3*2*2*2*2 = 1728 feature elements
+\* every combination: 3*4*3*3*2*2*2*2*2 = 3456 feature elements
 AllFeatureSets ==
-    {[tls |-> t, mechs |-> m, s2 |-> s2, b2 |-> b2, r2 |-> r2, legacy |-> l, bind |-> b, sm |-> sm] :
+    {[tls |-> t, mechs |-> m, s2 |-> s2, b2 |-> b2, r2 |-> r2, legacy |-> l, bind |-> b, sm |-> sm, register |-> rg] :
         t \in {"absent", "optional", "required"}, m \in {"none", "plain", "scram", "unknown"},
         s2 \in {"none", "plain", "scram"}, b2 \in {"none", "plain", "sm"}, r2 \in BOOLEAN,
-        l \in BOOLEAN, b \in BOOLEAN, sm \in BOOLEAN}
+        l \in BOOLEAN, b \in BOOLEAN, sm \in BOOLEAN, rg \in BOOLEAN}
 
 \* representative subset used for replay in the quick tier
 CoreFeatureSets ==
@@ -30,15 +35,18 @@ CoreFeatureSets ==
       Feat("absent", "none", "none", FALSE, TRUE, TRUE),       \* bind + sm
       Feat("absent", "none", "none", FALSE, FALSE, TRUE),      \* sm only
       Feat2("plain", "plain", FALSE),                          \* SASL 2 PLAIN + bind2
-      Feat2("plain", "sm", TRUE) }                             \* SASL 2 PLAIN + bind2 with sm + resumption
+      Feat2("plain", "sm", TRUE),                              \* SASL 2 PLAIN + bind2 with sm + resumption
+      FeatReg("absent", "plain"),                              \* in-band registration, no TLS offered
+      FeatReg("optional", "plain") }                           \* in-band registration + starttls
 
 \* quick-tier configurations: every TLS mode x {SASL only, SASL 2 only, legacy only, everything}
-QuickCfgs == {cf \in AllCfgs : \/ (cf.sasl /\ ~cf.sasl2 /\ ~cf.legacy)
+QuickCfgs == {cf \in AllCfgs : \/ cf.reg = "form" \/ (cf.reg = "noform" /\ cf.tls = "Required")
+                               \/ (cf.sasl /\ ~cf.sasl2 /\ ~cf.legacy)
                                \/ (~cf.sasl /\ cf.sasl2 /\ ~cf.legacy)
                                \/ (~cf.sasl /\ ~cf.sasl2 /\ cf.legacy)
                                \/ (cf.sasl /\ cf.sasl2 /\ cf.legacy)}
 
 \* exhaustive check of the quick tier: every TLS mode with every authentication method enabled
 \* (the richest machine; ClientStreamFull.cfg, thorough tier, checks all 24 configurations)
-McQuickCfgs == {cf \in AllCfgs : cf.sasl /\ cf.sasl2 /\ cf.legacy}
+McQuickCfgs == {cf \in AllCfgs : (cf.sasl /\ cf.sasl2 /\ cf.legacy) \/ cf.reg = "form"}
 =============================================================================
